@@ -1,9 +1,10 @@
 // C06.c: k-nearest-neighbour query of the ball tree (src/Tree/ball_algorithm.cpp,
 // src/Tree/neighbors_heap.cpp): the REAL btree_init builds the tree over VF_N points with integer
-// coordinates (VF_D features, |v| <= VF_G), then min_dist + query_depth_first (with nheap_push,
-// nheap_largest) answer a query for an arbitrary grid target.  Oracle: exhaustive search with the same
-// metric function: the heap holds VF_K distinct samples with their true distance and no sample left
-// out is closer than the largest kept one (== exactly the VF_K smallest distances).
+// coordinates (VF_D features, |v| <= VF_G), then the REAL nheap_load (min_dist + query_depth_first with
+// nheap_push, nheap_largest) answers the queries of VF_NQ arbitrary grid targets (one heap row each).
+// Oracle, for every row: exhaustive search with the same metric function: the row holds VF_K distinct
+// samples with their true distance and no sample left out is closer than the largest kept one
+// (== exactly the VF_K smallest distances).
 //   VF_METRIC 2: manhattan_distance (real code, selected through default_distance_function = 2)
 //   VF_METRIC 1: Euclidean distance through the dist_function argument of btree_init
 //                (the library's euclidean_distance goes through SpacePoint/ASpace: not executable)
@@ -27,6 +28,9 @@
 #endif
 #ifndef VF_METRIC
 #define VF_METRIC 2
+#endif
+#ifndef VF_NQ
+#define VF_NQ 1 // number of targets (rows of the heap)
 #endif
 
 #if VF_METRIC == 1
@@ -52,52 +56,64 @@ extern "C" void k_tree_query()
     rows[i] = pts[i];
     for (int j = 0; j < VF_D; j++) pts[i][j] = vf_grid_double(VF_G);
   }
-  double q[VF_D];
-  for (int j = 0; j < VF_D; j++) q[j] = vf_grid_double(VF_G);
+  static double q[VF_NQ][VF_D]; // VF_NQ targets
+  const double* xs[VF_NQ];
+  for (int t = 0; t < VF_NQ; t++)
+  {
+    xs[t] = q[t];
+    for (int j = 0; j < VF_D; j++) q[t][j] = vf_grid_double(VF_G);
+  }
 
   t_btree* b = btree_init(rows, VF_N, VF_D, VF_DISTARG, VF_LEAF, VF_METRIC); // REAL code
   vf_assert_id(b != nullptr, "tree is built");
   if (b == nullptr) return;
 
-  // heap row as nheap_init leaves it, with a finite "infinity" above every possible distance
-  // (the exact-arithmetic engine has no infinities)
+  // heap (one row per target) as nheap_init leaves it, with a finite "infinity" above every possible
+  // distance (the exact-arithmetic engine has no infinities)
   const double big = 4. * VF_G * VF_D + 1.;
-  double hd[VF_K];
-  int hi[VF_K];
-  for (int j = 0; j < VF_K; j++)
+  double hd[VF_NQ][VF_K];
+  int hi[VF_NQ][VF_K];
+  double* drows[VF_NQ];
+  int* irows[VF_NQ];
+  for (int t = 0; t < VF_NQ; t++)
   {
-    hd[j] = big;
-    hi[j] = 0;
+    drows[t] = hd[t];
+    irows[t] = hi[t];
+    for (int j = 0; j < VF_K; j++)
+    {
+      hd[t][j] = big;
+      hi[t][j] = 0;
+    }
   }
-  double* drows[1] = {hd};
-  int* irows[1]    = {hi};
   t_nheap h;
   h.distances = drows;
   h.indices   = irows;
-  h.n_pts     = 1;
+  h.n_pts     = VF_NQ;
   h.n_nbrs    = VF_K;
 
-  double d0 = min_dist(b, 0, q);          // REAL code (as nheap_load does)
-  query_depth_first(b, 0, q, 0, &h, d0);  // REAL code
+  nheap_load(&h, b, xs); // REAL code: min_dist + query_depth_first for every target
 
-  // exhaustive search with the same metric
-  double dd[VF_N];
-  for (int i = 0; i < VF_N; i++) dd[i] = VF_DIST(q, pts[i], VF_D);
-  double largest = hd[0];
-  for (int j = 1; j < VF_K; j++)
-    if (hd[j] > largest) largest = hd[j];
-  bool in_heap[VF_N];
-  for (int i = 0; i < VF_N; i++) in_heap[i] = false;
-  for (int j = 0; j < VF_K; j++)
+  for (int t = 0; t < VF_NQ; t++)
   {
-    int s = hi[j];
-    vf_assert_id(s >= 0 && s < VF_N, "heap index is a sample rank");
-    if (s < 0 || s >= VF_N) continue;
-    vf_assert_id(!in_heap[s], "heap samples are distinct");
-    in_heap[s] = true;
-    vf_assert_id(hd[j] == dd[s], "heap distance is the distance of its sample");
+    // exhaustive search with the same metric
+    double dd[VF_N];
+    for (int i = 0; i < VF_N; i++) dd[i] = VF_DIST(q[t], pts[i], VF_D);
+    double largest = hd[t][0];
+    for (int j = 1; j < VF_K; j++)
+      if (hd[t][j] > largest) largest = hd[t][j];
+    bool in_heap[VF_N];
+    for (int i = 0; i < VF_N; i++) in_heap[i] = false;
+    for (int j = 0; j < VF_K; j++)
+    {
+      int s = hi[t][j];
+      vf_assert_id(s >= 0 && s < VF_N, "heap index is a sample rank");
+      if (s < 0 || s >= VF_N) continue;
+      vf_assert_id(!in_heap[s], "heap samples are distinct");
+      in_heap[s] = true;
+      vf_assert_id(hd[t][j] == dd[s], "heap distance is the distance of its sample");
+    }
+    for (int i = 0; i < VF_N; i++)
+      if (!in_heap[i]) vf_assert_id(dd[i] >= largest, "no sample left out is closer than the kept ones");
   }
-  for (int i = 0; i < VF_N; i++)
-    if (!in_heap[i]) vf_assert_id(dd[i] >= largest, "no sample left out is closer than the kept ones");
   vf_witness();
 }
